@@ -49,6 +49,9 @@ KINDS = {
     'blankwant': (['>>> print("a")', '<BLANKLINE>'], 'GotWantException', 1),
     'blankwant2': (['>>> print("a")', '<BLANKLINE>', '<BLANKLINE>'], 'GotWantException', 1),
     'blankgot': (['>>> print("")', 'b'], 'GotWantException', 1),
+    # the doctest closes the stream its output is collected in: the error arises in the machinery, after the statement,
+    # with no frame of the doctest in its traceback (F31); the reported line is some line of the part (not judged)
+    'close_stdout': (['>>> import sys', '>>> sys.stdout.close()'], 'ValueError', 'anyline'),
     # the failing doctest also emitted a (recorded) warning before it failed
     'warn_then_exc': (['>>> import warnings', '>>> warnings.warn("w9")', '>>> 1/0'], 'ZeroDivisionError', 2),
     'warn_then_wrongout': (['>>> import warnings', '>>> warnings.warn("w9")', '>>> print("a")', 'b'], 'GotWantException', 3),
@@ -100,6 +103,8 @@ def build(kind, pos, pre):
     if kind == 'importerror':
         src += 'import nonexistent_module_xv09\n'
     first_line = src.split('\n').index('def bad():') + 2 + 1
+    if off == 'anyline':
+        return src, None
     exp_line = first_line + (fail_at + off if off is not None else 0)
     return src, exp_line
 
@@ -121,7 +126,7 @@ def check_render(t, kind, exp_line, atoms, where):
     m = FILE_LINE_RE.search(txt)
     if not m:
         atoms.append({'sig': 'render:no-file-line', 'msg': '%s: %s' % (where, txt[:300])})
-    elif int(m.group(1)) != exp_line:
+    elif exp_line is not None and int(m.group(1)) != exp_line:
         atoms.append({'sig': 'render:failing-line:' + kind.split('_')[0],
                       'msg': '%s: report names line %s, the failing line is %d' % (where, m.group(1), exp_line)})
 
